@@ -89,3 +89,4 @@ MANIFEST = {
     "technique": "runtime monitoring: save/restore round trips with trace replay (recorded action histories replayed on the restored object and compared)",
     "design_ref": "DESIGN.md section 4 / C19",
 }
+MANIFEST["text"] += " Round 7: random-stream continuity of used envs across pickle / deepcopy (restored env serves the original's next batch; a deep copy leaves the original undisturbed)."
